@@ -8,8 +8,6 @@ Proof.
   - intros H. exists v. split; [assumption|apply String.eqb_refl].
 Qed.
 
-Lemma ckind_eqb_eq a b : ckind_eqb a b = true <-> a = b.
-Proof. destruct a, b; simpl; split; intros H; try reflexivity; try discriminate. Qed.
 
 Lemma acct_did_sign_spec : forall id keys c,
   acct_did_sign id keys (Some c) = true <-> acct_spec id keys c.
